@@ -17,6 +17,9 @@ leaves behind is lost.  Here the state is kept:
   * a history is any sequence of additions (`push` / `extend` / `Serializer::new(&mut builder)`: the core's `serialize`)
     and finishers, in any mix, on ONE builder (`runHistory`).
 
+`runHistoryG` is the history of the builder WITH its poisoned flag (repo fix "poison the ArrayBuilder after a failed
+operation"): every operation yields its outcome and the history goes on after a failing one (`Props/C19Fail.lean`).
+
 `runMarrow` is the same history with every finisher replaced by `to_marrow` (it is what C10 speaks about once the
 builder model is plugged in: `BuildCore.histCore`, `Props/C19Reuse.lean`), `convertBuilt` is "finisher f applied to
 the arrays of a marrow build".  `Props/C19.lean` proves `runHistory = runMarrow ; convertBuilt` (`builder_reuse_agrees`).
@@ -151,6 +154,79 @@ def convertBuilt (cvA : Conv AF AA) (cvB : Conv BF BA) (validate : List AF → L
   | .arrow => (arrays.mapM cvA.arrayOfMarrow).map .arrow
   | .recordBatch => (recordBatchOf cvA validate schema (arrays.mapM cvA.arrayOfMarrow)).map .recordBatch
   | .arrow2 => (arrays.mapM cvB.arrayOfMarrow).map .arrow2
+
+/-! ### the builder WITH its poisoned flag: histories that go on after a failing operation
+
+`internal/array_builder.rs` after repo fix "poison the ArrayBuilder after a failed operation": `push`, `extend` and
+`build_arrays` run under `ArrayBuilder::guarded` — refused while `poisoned` is set, and `poisoned` stays set unless the
+operation succeeds.  A finisher that fails AFTER `build_arrays` (array conversion, schema conversion,
+`RecordBatch::try_new`) is still a recorded failure of that build on a builder that has been reset and stays usable.
+What the nested builders of a poisoned builder hold is never read again (`inner` keeps the last consistent state only so
+that the schema can still be named).  `pre`: what an addition checks BEFORE it reaches the builder — the `Serializer`
+wrapper refuses a value that is not a collection without touching the builder (`Build.serializeWithG`); `push` / `extend`
+check nothing. -/
+
+/-- the text of `ArrayBuilder::ensure_consistent` (= `Build.poisonedMsg`) -/
+def poisonedMsg : String :=
+  "The ArrayBuilder is in an inconsistent state after an earlier error: it may hold partial records and cannot be used any more"
+
+/-- `ArrayBuilder { builder, schema, poisoned }` -/
+structure GBuilder (OB : Type) where
+  inner : ArrayBuilder OB
+  poisoned : Bool
+
+/-- a freshly made builder -/
+def GBuilder.clean {OB : Type} (inner : ArrayBuilder OB) : GBuilder OB := { inner, poisoned := false }
+
+/-- one operation, its outcome (`none`: an addition; `some built`: what the finisher handed back) and the builder it leaves -/
+def stepG (core : Core OB Items D Out) (pre : Items → R Unit) (cvA : Conv AF AA) (cvB : Conv BF BA)
+    (validate : List AF → List AA → R Unit) (gb : GBuilder OB) : HOp Items → R (Option (Built AF AA BA)) × GBuilder OB
+  | .add items =>
+    match pre items with
+    | .error e => (.error e, gb)
+    | .ok _ =>
+      if gb.poisoned then (fail poisonedMsg, gb) else
+      match serializeInto core gb.inner items with
+      | .ok inner => (.ok none, { inner, poisoned := false })
+      | .error e => (.error e, { gb with poisoned := true })
+  | .finish f =>
+    if gb.poisoned then (fail poisonedMsg, gb) else
+    match gb.inner.finishS core cvA cvB validate f with
+    | .ok (r, inner) => (r.map some, { inner, poisoned := false })
+    | .error e => (.error e, { gb with poisoned := true })
+
+/-- run a history on one builder: EVERY operation yields its outcome, the history goes on after a failing one -/
+def runHistoryG (core : Core OB Items D Out) (pre : Items → R Unit) (cvA : Conv AF AA) (cvB : Conv BF BA)
+    (validate : List AF → List AA → R Unit) :
+    GBuilder OB → List (HOp Items) → List (R (Option (Built AF AA BA))) × GBuilder OB
+  | gb, [] => ([], gb)
+  | gb, op :: ops =>
+    let (out, gb') := stepG core pre cvA cvB validate gb op
+    let (outs, fin) := runHistoryG core pre cvA cvB validate gb' ops
+    (out :: outs, fin)
+
+/-! the UNREPAIRED `ArrayBuilder` (kept beside the model, used only for the negative example of `Props/C19Fail.lean`):
+no flag; a failing addition leaves behind whatever the core had written by then (`partialState`: not specified by the
+core, a parameter) and the history goes on with it -/
+def stepPinned (core : Core OB Items D Out) (partialState : OB → Items → OB) (cvA : Conv AF AA) (cvB : Conv BF BA)
+    (validate : List AF → List AA → R Unit) (self : ArrayBuilder OB) : HOp Items → R (Option (Built AF AA BA)) × ArrayBuilder OB
+  | .add items =>
+    match serializeInto core self items with
+    | .ok self' => (.ok none, self')
+    | .error e => (.error e, { self with builder := partialState self.builder items })
+  | .finish f =>
+    match self.finishS core cvA cvB validate f with
+    | .ok (r, self') => (r.map some, self')
+    | .error e => (.error e, self)
+
+def runHistoryPinned (core : Core OB Items D Out) (partialState : OB → Items → OB) (cvA : Conv AF AA) (cvB : Conv BF BA)
+    (validate : List AF → List AA → R Unit) :
+    ArrayBuilder OB → List (HOp Items) → List (R (Option (Built AF AA BA))) × ArrayBuilder OB
+  | self, [] => ([], self)
+  | self, op :: ops =>
+    let (out, self') := stepPinned core partialState cvA cvB validate self op
+    let (outs, fin) := runHistoryPinned core partialState cvA cvB validate self' ops
+    (out :: outs, fin)
 
 /-! ### the regression the model must exclude (kept beside the model, used only for the negative examples of
 `Props/C19.lean`): a `to_record_batch` that MOVES the schema out of the builder (`std::mem::take(&mut self.schema)`) -/
